@@ -50,6 +50,18 @@ CHECKS = {
   "associative chains, results on three documents, and single-token mutations (bracket removed/duplicated/swapped, operand removed) must give a parse error. Held on the expressions generated.",
   "Nothing is asserted about how equal-precedence different operators group (the property is silent); layout is varied only at token boundaries the lexer rules make unambiguous (listed in the evidence assumptions).",
   "DESIGN.md §5 C09"),
+ "C10": ("exploration",
+  "metamorphic monitor on the real binary and the in-process evaluators: a multi-file/multi-document run must equal the per-document runs joined by separators; index/filename bookkeeping against the harness's own; history permutations",
+  "Generated file sets (0..k documents each, empty files, stdin, comment/separator-laden documents) x ~125 document-local expression templates x {eval, eval-all} x -N; "
+  "byte oracle (O1/O5), parsed-stream oracle (O2), [document_index, file_index, filename] (O3), eval-all vs eval and N-in-N-out (O4). Deviations are excused only by exact matchers. Held on the cases generated.",
+  "YAML only; comment layouts that yaml.v3 itself re-attaches across documents are kept out of the generator.",
+  "DESIGN.md §5 C10"),
+ "C19": ("exploration",
+  "real-binary monitor with independent per-format readers, an independent small evaluator, strace (no read on fd 0 under -n) and failure injection at (file j, document k)",
+  "Six families through the real executable: complete-or-fail with a sentinel document, injected syntax/type/encoder failures at every position, result-shape x output-format sweep for silent drops, "
+  "-e truth table, -n never reads stdin (strace + pipe residue), automatic format by first file's extension, flag consistency (-N -r -0 -I). Held on the runs produced.",
+  "Values are tame (escaping belongs to C06/C14); stdout write failures are not injected.",
+  "DESIGN.md §5 C19"),
  "C11": ("exploration",
   "recover()/journal/CPU-watchdog monitor over seeded expression x input x format fuzz workloads, plus a -race/checkptr slice",
   "Every case runs the real parser, decoders, operators, printer and encoders in a child worker; a recovered panic, a fatal runtime "
